@@ -1277,7 +1277,10 @@ bool Graph::popNodePositions(void) {
     for (auto p : m_nodes) {
         Node_SP &u = p.second;
         id_type id = u->id();
-        Point c = positions.at(id);
+        // Nodes added since the positions were pushed have none to restore.
+        std::map<id_type, Point>::const_iterator it = positions.find(id);
+        if (it == positions.end()) continue;
+        Point c = it->second;
         u->setCentre(c.x, c.y);
     }
     // Pop the top element and return true.
